@@ -136,18 +136,81 @@ Proof.
   repeat split; [exact HF|discriminate].
 Qed.
 
-(** ---- a leading 'Z' ---- *)
-Definition head_is (c : Z) (s : text) : bool :=
-  match s with x :: _ => x =? c | [] => false end.
+(** ---- the anchored tails: exactly "Z", or nothing ---- *)
+Definition is_nil (s : text) : bool := match s with [] => true | _ => false end.
+Definition is_Z_only (s : text) : bool := match s with [c] => c =? 90 | _ => false end.
 
-Lemma match_Z_head {A} (s : text) (a b : A) :
-  match s with 90 :: _ => a | _ => b end = if head_is 90 s then a else b.
+Lemma match_Z_only {A} (s : text) (a b : A) :
+  match s with [90] => a | _ => b end = if is_Z_only s then a else b.
 Proof.
-  destruct s as [|c r]; [reflexivity|]. cbn [head_is].
+  destruct s as [|c r]; [reflexivity|].
   destruct (c =? 90) eqn:E.
-  - apply Z.eqb_eq in E. subst c. reflexivity.
-  - destruct c as [|p|p]; try reflexivity.
+  - apply Z.eqb_eq in E. subst c. destruct r; reflexivity.
+  - assert (Hr : is_Z_only (c :: r) = false) by (destruct r; [exact E|reflexivity]).
+    rewrite Hr. destruct c as [|p|p]; try reflexivity.
     do 8 (try (destruct p as [p|p|]; try reflexivity)). discriminate E.
+Qed.
+
+Lemma match_Z_nil {A} (s : text) (a n b : A) :
+  match s with [90] => a | [] => n | _ => b end
+  = if is_nil s then n else if is_Z_only s then a else b.
+Proof.
+  destruct s as [|c r]; [reflexivity|]. cbn [is_nil].
+  destruct (c =? 90) eqn:E.
+  - apply Z.eqb_eq in E. subst c. destruct r; reflexivity.
+  - assert (Hr : is_Z_only (c :: r) = false) by (destruct r; [exact E|reflexivity]).
+    rewrite Hr. destruct c as [|p|p]; try reflexivity.
+    do 8 (try (destruct p as [p|p|]; try reflexivity)). discriminate E.
+Qed.
+
+Lemma is_Z_only_cons2 c d r : is_Z_only (c :: d :: r) = false.
+Proof. reflexivity. Qed.
+
+(** ---- appending text after a successful scan ---- *)
+Lemma scan_digits_append n : forall acc s v r j,
+  scan_digits n acc s = Some (v, r) -> scan_digits n acc (s ++ j) = Some (v, r ++ j).
+Proof.
+  induction n as [|n IH]; intros acc s v r j H; cbn [scan_digits] in *.
+  - inversion H; subst. reflexivity.
+  - destruct s as [|c s]; [discriminate|]. cbn [app].
+    destruct (is_digit c); [|discriminate]. apply IH. exact H.
+Qed.
+
+Lemma scan_char_append c s r j : scan_char c s = Some r -> scan_char c (s ++ j) = Some (r ++ j).
+Proof.
+  unfold scan_char. destruct s as [|x s]; [discriminate|]. cbn [app].
+  destruct (x =? c); [|discriminate]. intros H. inversion H; subst. reflexivity.
+Qed.
+
+Lemma span_digits_nondigit j : nondigit_head j -> span_digits j = ([], j).
+Proof.
+  destruct j as [|c j]; [reflexivity|]. cbn [nondigit_head span_digits]. intros ->. reflexivity.
+Qed.
+
+Lemma span_digits_append s : forall ds r j, span_digits s = (ds, r) -> nondigit_head j ->
+  span_digits (s ++ j) = (ds, r ++ j).
+Proof.
+  induction s as [|c s IH]; intros ds r j H Hj.
+  - cbn [span_digits] in H. inversion H; subst. cbn [app]. apply span_digits_nondigit. exact Hj.
+  - cbn [app span_digits] in *. destruct (is_digit c).
+    + destruct (span_digits s) as [a b]. inversion H; subst.
+      rewrite (IH _ _ j eq_refl Hj). reflexivity.
+    + inversion H; subst. reflexivity.
+Qed.
+
+Lemma scan_frac_append s f r j : scan_frac s = (f, r) ->
+  match j with [] => True | c :: _ => is_digit c = false /\ c <> 46 end ->
+  scan_frac (s ++ j) = (f, r ++ j).
+Proof.
+  intros H Hj.
+  assert (Hnd : nondigit_head j) by (destruct j; [exact I|apply Hj]).
+  rewrite scan_frac_eq in *. destruct s as [|c s'].
+  - inversion H; subst. cbn [app]. rewrite <- scan_frac_eq. apply scan_frac_none.
+    destruct j; [exact I|apply Hj].
+  - cbn [app]. destruct (c =? 46); [|inversion H; subst; reflexivity].
+    destruct (span_digits s') as [ds rest] eqn:Hs.
+    rewrite (span_digits_append s' ds rest j Hs Hnd).
+    destruct ds; inversion H; subst; reflexivity.
 Qed.
 
 (** ---- strptime's month and day groups on two digits ---- *)
